@@ -43,6 +43,7 @@
 From Coq Require Import List ZArith NArith Bool.
 From Astisub Require Import Kit.Base Kit.Str Kit.Utf8 Kit.Scan Model.Dur Model.Stl Gen.StlTables Proofs.StlCodec Proofs.StlBlocks
   Proofs.StlTti Proofs.StlGsi Proofs.StlRows Proofs.StlRowsTtx Proofs.StlDoc Proofs.StlWriteRead Proofs.StlReadSpec.
+From Astisub Require Import Model.TtxRow Model.TtxRowStl Proofs.StlTtxAgree.
 Import ListNotations.
 
 (* ---- character codec ---- *)
@@ -219,3 +220,12 @@ Print Assumptions C05_read_item_fields.
 Theorem C05_read_short : forall ign data, (length data < 1024)%nat -> exists k, read_stl ign data = Err k.
 Proof. exact read_short_gsi. Qed.
 Print Assumptions C05_read_short.
+
+(* ---- one row model for the teletext display standards: the shared parser of Model/TtxRow.v with the STL styler
+   (Model/TtxRowStl.v, used by the teletext slice's stl_parse_row_encoded) and the STL character handler as its decoder
+   computes what stl_ttx_row computes, for every row and every pending accent ---- *)
+Theorem C05_teletext_row_is_shared_model : forall row acc,
+  stl_parse_row stl_handler acc row =
+  Ok (let '(l, acc') := stl_ttx_row row [] [] sattr0_stl false acc in (map trun_of l, acc')).
+Proof. exact stl_ttx_row_is_parse_row. Qed.
+Print Assumptions C05_teletext_row_is_shared_model.
